@@ -110,6 +110,8 @@ def run_case(ctx, case):
             ctx.count("shared_line_updates")
         if m["globs"]:
             ctx.count("glob_entry_updates")
+        if m.get("aliased_path_entries"):
+            ctx.count("aliased_path_entry_updates")
         if m.get("repeated_occurrences"):
             ctx.count("updates_with_a_pattern_on_several_lines")
         for prob in problems:
